@@ -14,6 +14,7 @@ ENGINES = {
     "signersim": dict(pkg="./sims/signersim", bin="signersim.test", test="^TestWorker$"),
     "partsim": dict(pkg="./sims/partsim", bin="partsim.test", test="^TestWorker$"),
     "execsim": dict(pkg="./sims/execsim", bin="execsim.test", test="^TestWorker$"),
+    "p2psim": dict(pkg="./sims/p2psim", bin="p2psim.test", test="^TestWorker$"),
     # the reference go-ethereum and the in-tree copy both carry libsecp256k1: built with the pure-Go fallback of both
     "triesim": dict(pkg="./sims/triesim", bin="triesim.test", test="^TestWorker$", tags="verif nocgo", cgo=False),
 }
@@ -35,6 +36,7 @@ PARTS = {
     "C06": [("execsim", 160, 1.0)],
     "C14": [("execsim", 700, 1.0)],
     "C19": [("execsim", 900, 1.0)],
+    "C20": [("p2psim", 3000, 0.5), ("execsim", 400, 0.5)],
     "C11": [("triesim", 6000, 1.0)],
     "C03": [("signersim", 1200, 0.5), ("csim", 120, 0.5)],
 }
@@ -43,6 +45,7 @@ REAL = {
     "execsim": ["gemmill Angine (buildState, assembleStateMachine, ConnectApp, RecoverFromCrash, plugin glue)", "gemmill/state ExecBlock/ApplyBlock/Save, gemmill/blockchain store, pbft ConsensusState.ValidateBlock",
                 "chain/app/evm EVMApp (OnExecute, parallel signature verifier with its real goroutines, OnCommit, SaveReceipts, key-value history, Query), transaction pool construction",
                 "eth/core state transition, VM incl. precompiles and the governance precompile, StateDB, trie, rlp"],
+    "p2psim": ["gemmill/p2p SecretConnection (handshake, Write, Read) and MConnection (channels, packetisation, send/receive routines, flush throttle, flow monitors)", "go-wire", "golang.org/x/crypto secretbox / curve25519"],
     "triesim": ["eth/trie (Trie insert/delete/get/hash/commit, Database commit, Prove/VerifyProof)", "eth/core/state (StateDB, state objects, journal, snapshots, IntermediateRoot, Commit)", "eth/rlp, eth/crypto keccak"],
     "partsim": ["gemmill/types PartSet/Part (NewPartSetFromData, NewPartSetFromHeader, AddPart, GetReader)", "go-merkle simple tree and proofs", "go-hash"],
     "signersim": ["gemmill/types PrivValidator (SignVote, SignProposal, signBytesHRS, save, LoadPrivValidator)", "go-common WriteFileAtomic on a real file", "go-wire JSON of the signer file"],
@@ -53,6 +56,7 @@ REAL = {
 }
 STUB = {
     "execsim": ["LevelDB -> simdisk (process-death durability)", "consensus: the harness builds the blocks and signs the commits with the validator key; replicas execute them through the three calls of the fast-sync executor (SaveBlock, ApplyBlock, Save)", "p2p, RPC, query-cache plugin (not loaded)"],
+    "p2psim": ["TCP -> simnet link: two in-memory connection ends with a relay in the middle that forwards the ciphertext unit by unit (ephemeral key, then sealed frames) and applies seeded operations", "no Switch, no reactors in this engine (admission runs in execsim on the real Switch of a full node)"],
     "triesim": ["LevelDB -> simdisk (batch = one atomic write; crash = death before batch k of a commit; injected batch write error)", "no clock, no concurrency: the fault dimension is reopen / crash-reopen / write error", "oracle: reference go-ethereum v1.8.27 trie and StateDB in lockstep, plus a map model"],
     "partsim": ["no node: sender and receiver part sets with an adversarial network in between (reorder, duplicate, one mutation per delivered copy)"],
     "signersim": ["no node, no clock, no goroutines: the signer is driven directly; process death = panic out of the fault point before a file operation, everything written before it stays"],
